@@ -248,6 +248,9 @@ def corrupt_trace(src, dst):
     return done
 
 
+DRIVER_OF = {"fc": "TestFailureCacheReplay", "req": "TestRequestReplay", "probe": "TestProbeReplay", "replay": "TestFailureCacheReplay"}
+
+
 def validate_trace(ctx, name, base_cfg, trace, cap=None, what="FailureCache"):
     nlines = sum(1 for _ in open(trace))
     if nlines == 0:
@@ -266,7 +269,8 @@ def validate_trace(ctx, name, base_cfg, trace, cap=None, what="FailureCache"):
         ctx.violation("c13/trace/" + r.violated,
                       "[%s] %s is false on a recorded execution of the real %s (trace line %d: %s)"
                       % (name, r.violated, what, r.depth - 1, lines[-1][:300] if lines else ""),
-                      {"trace_prefix": lines[-30:], "cfg": base_cfg})
+                      {"trace_prefix": last_run(lines), "cfg": base_cfg, "driver": DRIVER_OF.get(name.split("_")[0], ""),
+                       "name": name})
     elif not ok:
         ctx.cov["drift"] += 1
         ctx.log("DRIFT: trace %s not consumed by the monitor after %d of %d lines" % (name, r.depth - 1, nlines))
@@ -275,6 +279,28 @@ def validate_trace(ctx, name, base_cfg, trace, cap=None, what="FailureCache"):
         ctx.cov["traces_validated_against_impl"] += 1
     ctx.cov["replay"]["trace_" + name] = info
     return ok and not r.violated
+
+
+def last_run(lines):
+    """The lines of the run (Reset .. end) the last line belongs to."""
+    start = max([i for i, l in enumerate(lines) if l.startswith('{"op":"Reset"')] or [0])
+    return lines[start:]
+
+
+def steps_of_trace(lines):
+    """Re-create driver steps from recorded trace lines (arguments are logged in model ids)."""
+    steps = []
+    for l in lines:
+        e = json.loads(l)
+        op = e.get("op")
+        if op in ("Reset", "Wake"):
+            continue
+        s = {"op": op}
+        for f in ("k", "zk", "p", "cause", "d", "o", "z", "r"):
+            if f in e:
+                s[f] = e[f]
+        steps.append(s)
+    return steps
 
 
 def monitor_selftest(ctx, base_cfg, trace):
@@ -350,17 +376,12 @@ def run_replay(ctx, path):
     rep = doc.get("replay", {})
     ctx.cov["rule"] = "replay of one recorded failing case"
     if "trace_prefix" in rep:
-        trace = os.path.join(ctx.scratch, "replay.ndjson")
-        with open(trace, "w") as f:
-            f.write("\n".join(rep["trace_prefix"]) + "\n")
-        lines = rep["trace_prefix"]
-        first_reset = max([i for i, l in enumerate(lines) if l.startswith('{"op":"Reset"')] or [0])
-        with open(trace, "w") as f:
-            f.write("\n".join(lines[first_reset:]) + "\n")
-        ctx.spec_dir(MOD)
-        validate_trace(ctx, "replay", rep["cfg"], trace)
-        ctx.cov["states"] = ctx.cov["transitions"] = max(1, len(lines))
-        return
+        # a monitor finding: re-execute the recorded calls on the real code, then judge the new recording
+        lines = last_run(rep["trace_prefix"])
+        head = json.loads(lines[0]) if lines else {}
+        rep = {"driver": rep.get("driver") or "TestFailureCacheReplay", "path": head.get("path", rep["cfg"] + "#replay"),
+               "shape": head.get("shape", "plain"), "cfg": driver_cfg(read_cfg(rep["cfg"])),
+               "steps": [json.dumps(x) for x in steps_of_trace(lines)], "trace_cfg": rep["cfg"]}
     driver = rep.get("driver")
     if driver == "TestResolverShed":
         res = ctx.go_driver("./c13", driver, {"cfg": driver_cfg(read_cfg("Sim_Req"))}, name="replay", timeout=300)
@@ -371,9 +392,13 @@ def run_replay(ctx, path):
         raise vf.MachineryError("replay file %s names no C13 driver" % path)
     pid = rep["path"]
     base = pid.split("#")[0].split("/")[0]
-    steps = [json.loads(x) for x in rep["steps"]]
+    try:
+        steps = [json.loads(x) for x in rep["steps"]]
+    except ValueError as ex:
+        raise vf.MachineryError("replay file %s has an unparsable step: %s" % (path, ex))
+    trace = os.path.join(ctx.scratch, "replay.ndjson")
     inp = {"cfg": rep["cfg"], "shapes": 1, "shapeBase": SHAPES.index(rep.get("shape", "plain")),
-           "paths": [{"id": pid, "steps": steps}], "traceOut": "", "random": 0}
+           "paths": [{"id": pid, "steps": steps}], "traceOut": trace, "random": 0}
     try:
         inp.update(keyspace(read_cfg(base)))
     except (OSError, KeyError):
@@ -381,6 +406,10 @@ def run_replay(ctx, path):
     res = ctx.go_driver("./c13", driver, inp, name="replay", timeout=600)
     ctx.take_driver_result(res, "[replay %s] " % pid)
     ctx.cov["states"] = ctx.cov["transitions"] = max(1, len(steps))
+    tcfg = rep.get("trace_cfg", base)
+    if os.path.exists(os.path.join(vf.VERIF, "tla", MOD, tcfg + ".cfg")) and os.path.getsize(trace) > 0:
+        ctx.spec_dir(MOD)
+        validate_trace(ctx, "replay", tcfg, trace, what="code")
     ctx.sample({"replayed": pid, "steps": len(steps), "violations": len(res.get("violations", []))})
 
 
